@@ -130,6 +130,7 @@ type Frame struct {
 	contract *FuncContract
 	rets     []retInfo
 	defers   []*ssa.Defer
+	rangeIn0 map[*ssa.Range]Term // key set of a ranged map when the range started
 	deferSt  map[*ssa.Defer][]Term
 	entrySt  *State
 	params   []Term
